@@ -1082,11 +1082,18 @@ func forcedCase(kind string, q, keys int) string {
 	curCtl.Store(c)
 	defer ctls.Delete(vx)
 	defer curCtl.Store((*ctl)(nil))
+	// a panic inside Close (e.g. "close of closed channel" when two overlapping calls both get past the
+	// closed check) is an outcome of the schedule, not a crash of the harness
+	var panicked atomic.Value
 	closer := func(role string, done chan struct{}) {
 		go func() {
 			defer close(done)
 			c.as(role)
-			defer func() { recover() }()
+			defer func() {
+				if e := recover(); e != nil {
+					panicked.Store(fmt.Sprint(e))
+				}
+			}()
 			vx.Close()
 		}()
 	}
@@ -1158,6 +1165,9 @@ func forcedCase(kind string, q, keys int) string {
 		}
 	default:
 		out = "unknown-kind"
+	}
+	if p, _ := panicked.Load().(string); p != "" {
+		out = "panic"
 	}
 	if out == "ok" && libAlive(baseP, baseI, goneBound) {
 		out = "leak"
